@@ -8,6 +8,7 @@ package py
 
 import (
 	"fmt"
+	"reflect"
 )
 
 // Gets the attribute attr from object or returns nil
@@ -71,6 +72,29 @@ func ObjectIsSequence(o Object) bool {
 		if t.GetAttrOrNil("__getitem__") != nil {
 			return true
 		}
+	}
+	return false
+}
+
+// ObjectIs reports whether a and b are the same object (the `is` operator).
+//
+// Objects whose Go representation is a map or a slice (dict, tuple,
+// bytes) cannot be compared with ==, so they are the same object
+// when they share their storage.
+func ObjectIs(a, b Object) bool {
+	ta := reflect.TypeOf(a)
+	if ta == nil || ta != reflect.TypeOf(b) {
+		return a == nil && b == nil
+	}
+	if ta.Comparable() {
+		return a == b
+	}
+	va, vb := reflect.ValueOf(a), reflect.ValueOf(b)
+	switch ta.Kind() {
+	case reflect.Map:
+		return va.Pointer() == vb.Pointer()
+	case reflect.Slice:
+		return va.Len() == vb.Len() && (va.Len() == 0 || va.Pointer() == vb.Pointer())
 	}
 	return false
 }
